@@ -133,8 +133,7 @@ def cycle(rec, pvl, t0, src, wit0, rng):
                         type(diff[2]).__name__ == "Quantity":
                     # inside a sequence / set / quantity: is a string that
                     # looks like a zoned time the ONLY thing that changed?
-                    a = _neutralise(diff[2], dialect, True)
-                    b = _neutralise(diff[3], dialect, False)
+                    a, b = _neutral_pair(diff[2], diff[3], dialect)
                     if a != diff[2] and compare(a, b, rules_for(dialect, "default")) is None:
                         f2["value"] = "str:time-with-zone-offset-like"
                         f2["became"] = "time"
@@ -167,6 +166,28 @@ def cycle(rec, pvl, t0, src, wit0, rng):
                 continue
             rec.count("equal_up_to_set_order")
         rec.count(f"stable[{dialect}]")
+
+
+def _neutral_pair(orig, loaded, dialect):
+    """Both sides with one marker wherever a string that looks like a zoned
+    time (original) stands where a zoned time was read back (loaded); lists
+    and quantities are walked in parallel, sets element-wise by the old rule."""
+    import datetime as dt
+    from ..roundtrip import describe_str
+    if isinstance(orig, list) and isinstance(loaded, list) and len(orig) == len(loaded):
+        pairs = [_neutral_pair(a, b, dialect) for a, b in zip(orig, loaded)]
+        return [p[0] for p in pairs], [p[1] for p in pairs]
+    if type(orig).__name__ == "Quantity" and type(loaded).__name__ == "Quantity":
+        a, b = _neutral_pair(orig.value, loaded.value, dialect)
+        return type(orig)(a, orig.units), type(loaded)(b, loaded.units)
+    if isinstance(orig, (set, frozenset)) and isinstance(loaded, (set, frozenset)):
+        return _neutralise(orig, dialect, True), _neutralise(loaded, dialect, False)
+    if isinstance(orig, str) and isinstance(loaded, (dt.time, dt.datetime)) and \
+            describe_str(orig, dialect) == "str:time-with-zone-offset-like" and \
+            loaded.tzinfo is not None and loaded.utcoffset() is not None and \
+            loaded.utcoffset().total_seconds() != 0:
+        return "\0ZONED", "\0ZONED"
+    return orig, loaded
 
 
 def _neutralise(x, dialect, orig_side):
